@@ -267,18 +267,63 @@ def rule_r3(ctx):
     # a bare IPv6 address in X-Forwarded-For gets its brackets - and only that: the hop is wrapped when it holds a ':' and no
     # '.' and does not already end in ']' (an `a.b.c.d:port` hop wrapped as well keeps its port inside the address)
     nwrap = 0
+    def _conj(t, pol, out):
+        """(test, polarity) pairs implied by `t` having truth value `pol`, in the canonical polarity of the flow graph"""
+        if isinstance(t, ast.UnaryOp) and isinstance(t.op, ast.Not):
+            _conj(t.operand, not pol, out)
+        elif isinstance(t, ast.BoolOp) and ((isinstance(t.op, ast.And) and pol) or (isinstance(t.op, ast.Or) and not pol)):
+            for v in t.values:
+                _conj(v, pol, out)
+        elif isinstance(t, ast.Compare) and len(t.ops) == 1 and isinstance(t.ops[0], (ast.NotIn, ast.NotEq)):
+            pos = ast.Compare(left=t.left, ops=[ast.In() if isinstance(t.ops[0], ast.NotIn) else ast.Eq()], comparators=t.comparators)
+            out.append((pos, not pol))
+        elif isinstance(t, ast.Compare) and len(t.ops) == 1 and isinstance(t.ops[0], ast.Eq) and isinstance(t.left, ast.Constant) and not isinstance(t.comparators[0], ast.Constant):
+            out.append((ast.Compare(left=t.comparators[0], ops=[ast.Eq()], comparators=[t.left]), pol))
+        else:
+            out.append((t, pol))
+
+    def _expr_guards(root, e):
+        """the tests of the conditional expressions of `root` that enclose `e`"""
+        out = []
+        def rec(x, acc):
+            if x is e:
+                out.extend(acc)
+                return True
+            if isinstance(x, (ast.FunctionDef, ast.AsyncFunctionDef, ast.Lambda)):
+                return False
+            if isinstance(x, ast.IfExp):
+                if rec(x.test, acc):
+                    return True
+                a = []
+                _conj(x.test, True, a)
+                if rec(x.body, acc + a):
+                    return True
+                b = []
+                _conj(x.test, False, b)
+                return rec(x.orelse, acc + b)
+            return any(rec(c, acc) for c in ast.iter_child_nodes(x))
+        rec(root, [])
+        return out
+
+    def _walk_no_defs(x):
+        yield x
+        for c in ast.iter_child_nodes(x):
+            if isinstance(c, (ast.FunctionDef, ast.AsyncFunctionDef, ast.Lambda)):
+                continue
+            yield from _walk_no_defs(c)
+
     wraps = []
     for nd in gcf.nodes:
-        if nd.ast is None or nd.kind not in ("stmt", "branch", "test"):
+        if nd.ast is None or nd.kind not in ("stmt", "branch", "test") or isinstance(nd.ast, (ast.FunctionDef, ast.AsyncFunctionDef, ast.ClassDef)):
             continue
-        for e in ast.walk(nd.ast):
+        for e in _walk_no_defs(nd.ast):
             if isinstance(e, (ast.JoinedStr, ast.BinOp, ast.Call)):
                 tpl = str_template(e)
                 if tpl is not None and template_text(tpl, names=False) == "[{}]":
-                    wraps.append((nd, [q for q in tpl if not isinstance(q, str)][0][1]))
-    for nd, x in wraps:
+                    wraps.append((nd, [q for q in tpl if not isinstance(q, str)][0][1], _expr_guards(nd.ast, e)))
+    for nd, x, inner in wraps:
         nwrap += 1
-        gs = guards_of(gcf, nd)
+        gs = list(guards_of(gcf, nd)) + list(inner)
 
         def has(ch, want, x=x):
             for (t, pol) in gs:
